@@ -268,6 +268,16 @@ def run_golomb(case):
         y = decode_golomb(ub, P)
         return n, packed, y, len(ub)
 
+    # the code of a value must not change because it was packed before (a shared/memoised list padded in place)
+    probe = [case["lo"], case["lo"] + 1, case["hi"] - 1]
+    for x in probe:
+        first = attempt(lambda: list(encode_golomb(x, P)))
+        attempt(lambda: pack_bits(encode_golomb(x, P)))
+        second = attempt(lambda: list(encode_golomb(x, P)))
+        if first != second:
+            viol(res, "golomb", case, "encode-changes-after-pack_bits", hx(second) if isinstance(second, Rejected) else len(second), len(first) if not isinstance(first, Rejected) else "?", f"encode_golomb({x}) returns a different code after pack_bits was applied to an earlier result")
+            break
+
     for x in range(case["lo"], case["hi"]):
         ref = R.golomb_bytes(x, P)
         nbits = (x >> P) + 1 + P
@@ -797,6 +807,13 @@ def run_bloom(case):
                 bad = True
                 break
             res.ok("bits after add==ref")
+            # filterload in between the adds: a later filterload must show the items added since
+            msg = attempt(bf.filterload)
+            want = R.filterload_payload(vd, nf, tweak, 1)
+            if isinstance(msg, Rejected) or attempt(lambda: msg.payload) != want:
+                viol(res, "bloom", case, "filterload-between-adds", hx(msg) if isinstance(msg, Rejected) else hx(attempt(lambda: msg.payload)), want.hex()[-40:], "filterload() issued between add() calls does not carry the current bit field")
+                bad = True
+                break
     if bad:
         return res
     fb = attempt(bf.filter_bytes)
@@ -824,6 +841,16 @@ def run_bloom(case):
         viol(res, "bloom", case, "filterload-default-flag", hx(msg), want.hex()[-40:], "filterload() default flag is not BLOOM_UPDATE_ALL (1)")
     else:
         res.ok("filterload default==ref")
+    # one more item after filterload was used: the next filterload / filter_bytes must include it
+    extra = b"added-after-filterload:" + bytes([size % 256, nf % 256])
+    r = attempt(bf.add, extra)
+    R.bloom_insert(vd, extra, nf, tweak)
+    msg = attempt(bf.filterload)
+    want = R.filterload_payload(vd, nf, tweak, 1)
+    if isinstance(r, Rejected) or isinstance(msg, Rejected) or attempt(lambda: msg.payload) != want or attempt(bf.filter_bytes) != bytes(vd):
+        viol(res, "bloom", case, "stale-after-filterload", hx(msg) if isinstance(msg, Rejected) else hx(attempt(lambda: msg.payload))[-40:], want.hex()[-40:], "an item added after filterload() is missing from the next filterload() / filter_bytes()")
+    else:
+        res.ok("add after filterload visible")
     return res
 
 
